@@ -93,9 +93,12 @@ def extract(relpath, sig_regex, nth=None):
 
 
 def rule(ex, name, pattern, repl, count, text=None, flags=0):
-    """counted rewrite rule on ex.body (in place). count=None: at least one firing"""
+    """counted rewrite rule on ex.body (in place). count=None: at least one firing; count='any': zero or more (syntax-only rules that let
+    C mode read C++ spellings with the same meaning, e.g. functional casts of scalars)"""
     new, n = re.subn(pattern, repl, ex.body if text is None else text, flags=flags)
-    if (count is None and n == 0) or (count is not None and n != count):
+    if count == 'any':
+        pass
+    elif (count is None and n == 0) or (count is not None and n != count):
         raise Undecided('extraction drift: rule %s fired %d times in %s (expected %s)' % (name, n, ex.sig, count))
     ex.fired.append({'rule': name, 'fired': n})
     ex.body = new
